@@ -271,7 +271,7 @@ fn manual_base(rng: &mut Rng, cfg: &mut SimCfg, n: usize, tick_ms: u64) -> (Net,
         script.push((fin, Act::Release(Sel::All, Sel::All)));
     }
     let tick = cfg.tick_us;
-    let net = Net { cfg: cfg.clone(), hosts: n, udp, conns, hacts: vec![], script, steps: fin + (3 * (cfg.max_latency_us.div_ceil(tick) + 2) + 4) as u32, sample_links: true, probes: vec![] };
+    let net = Net { cfg: cfg.clone(), hosts: n, udp, conns, hacts: vec![], script, steps: fin + (3 * (cfg.max_latency_us.div_ceil(tick) + 2) + 4) as u32, sample_links: true, probes: vec![], literal_order: vec![] };
     (net, Manual { pair: (a, b), mark_step })
 }
 
@@ -312,7 +312,7 @@ fn capacity_base(rng: &mut Rng, cfg: &mut SimCfg, n: usize, tick_ms: u64) -> Net
         udp.push(UdpBurst { from: x, to: y, at_ms: rng.range(tick_ms, hi), count: rng.range(1, 3) as u32, by_ip: rng.chance(1, 3) });
     }
     let script = vec![(hold_step, Act::Hold(gen_sel(rng, a), gen_sel(rng, b))), (rel_step, Act::Release(gen_sel(rng, a), gen_sel(rng, b)))];
-    Net { cfg: cfg.clone(), hosts: n, udp, conns, hacts: vec![], script, steps: rel_step + 3 * (lat + 2) + 24, sample_links: true, probes: vec![] }
+    Net { cfg: cfg.clone(), hosts: n, udp, conns, hacts: vec![], script, steps: rel_step + 3 * (lat + 2) + 24, sample_links: true, probes: vec![], literal_order: vec![] }
 }
 
 fn cycles_base(rng: &mut Rng, cfg: &mut SimCfg, n: usize, tick_ms: u64) -> Net {
@@ -404,7 +404,7 @@ fn cycles_base(rng: &mut Rng, cfg: &mut SimCfg, n: usize, tick_ms: u64) -> Net {
     script.push((fin, Act::Release(Sel::All, Sel::All)));
     script.sort_by_key(|(s, _)| *s);
     let tick = cfg.tick_us;
-    Net { cfg: cfg.clone(), hosts: n, udp, conns, hacts, script, steps: fin + (3 * (cfg.max_latency_us.div_ceil(tick) + 2) + 4) as u32, sample_links: rng.chance(4, 5), probes: vec![] }
+    Net { cfg: cfg.clone(), hosts: n, udp, conns, hacts, script, steps: fin + (3 * (cfg.max_latency_us.div_ceil(tick) + 2) + 4) as u32, sample_links: rng.chance(4, 5), probes: vec![], literal_order: vec![] }
 }
 
 /// Ordered subsets of 0..k (all of them).
@@ -979,7 +979,7 @@ mod tests {
 
     #[test]
     fn model_hold_release_on_a_hand_written_history() {
-        let net = Net { cfg: SimCfg { min_latency_us: 3000, max_latency_us: 3000, tick_us: 1000, ..SimCfg::default() }, hosts: 2, udp: vec![], conns: vec![], hacts: vec![], script: vec![], steps: 1, sample_links: false, probes: vec![] };
+        let net = Net { cfg: SimCfg { min_latency_us: 3000, max_latency_us: 3000, tick_us: 1000, ..SimCfg::default() }, hosts: 2, udp: vec![], conns: vec![], hacts: vec![], script: vec![], steps: 1, sample_links: false, probes: vec![], literal_order: vec![] };
         let ev = |seq, step, t, host, kind| Ev { seq, step, t, host, kind };
         let m = |s| Msg::Udp { from: 0, to: 1, seq: s };
         let evs = vec![
@@ -1012,12 +1012,12 @@ mod tests {
         let cfg = SimCfg { min_latency_us: 2000, max_latency_us: 2000, tick_us: 1000, ..SimCfg::default() };
         let conn = Conn { from: 1, to: 0, at_ms: 1, c2s: vec![(2, 1)], s2c: vec![(2, 1)], fin_c: None, fin_s: None, by_ip: false, drop_c: None };
         // hold, connect, deliver everything by hand, later release
-        let net = Net { cfg: cfg.clone(), hosts: 2, udp: vec![UdpBurst { from: 0, to: 1, at_ms: 2, count: 2, by_ip: false }], conns: vec![conn.clone()], hacts: vec![], script: vec![(1, Act::Hold(Sel::Name(0), Sel::Name(1))), (5, Act::DeliverAll(0, 1)), (9, Act::Release(Sel::Name(0), Sel::Name(1)))], steps: 30, sample_links: true, probes: vec![] };
+        let net = Net { cfg: cfg.clone(), hosts: 2, udp: vec![UdpBurst { from: 0, to: 1, at_ms: 2, count: 2, by_ip: false }], conns: vec![conn.clone()], hacts: vec![], script: vec![(1, Act::Hold(Sel::Name(0), Sel::Name(1))), (5, Act::DeliverAll(0, 1)), (9, Act::Release(Sel::Name(0), Sel::Name(1)))], steps: 30, sample_links: true, probes: vec![], literal_order: vec![] };
         let rep = C08::run(&Scenario { net, manual: None, vseed: 0 }, true);
         assert!(rep.violation.is_none(), "{:?}\n{}", rep.violation, rep.log.join("\n"));
         assert!(rep.log.iter().any(|l| l.contains("ConnOk")));
         // hold issued from host code, release from the Sim handle
-        let net = Net { cfg, hosts: 2, udp: vec![], conns: vec![conn], hacts: vec![HostAct { host: 1, at_ms: 1, act: Act::Hold(Sel::Name(0), Sel::Name(1)) }], script: vec![(6, Act::Release(Sel::Name(1), Sel::Name(0)))], steps: 30, sample_links: true, probes: vec![] };
+        let net = Net { cfg, hosts: 2, udp: vec![], conns: vec![conn], hacts: vec![HostAct { host: 1, at_ms: 1, act: Act::Hold(Sel::Name(0), Sel::Name(1)) }], script: vec![(6, Act::Release(Sel::Name(1), Sel::Name(0)))], steps: 30, sample_links: true, probes: vec![], literal_order: vec![] };
         let rep = C08::run(&Scenario { net, manual: None, vseed: 0 }, true);
         assert!(rep.violation.is_none(), "{:?}\n{}", rep.violation, rep.log.join("\n"));
         assert!(rep.log.iter().any(|l| l.contains("ConnOk")));
